@@ -250,6 +250,20 @@ def np_solve(interp, args, kwargs, node):
         raise Raised('LinAlgError', ln, 'Last 2 dimensions of the array must be square', implicit=True)
     if len(b.data) != n:
         raise Raised('ValueError', ln, 'solve: mismatch in core dimension', implicit=True)
+    if all(is_conc_num(x) for r in A.data for x in r) and all(is_conc_num(x) for x in b.data):
+        # all operands concrete: exact rational Gaussian elimination (the same x the axiom below characterises)
+        from fractions import Fraction
+        M = [[Fraction(x) for x in r] + [Fraction(y)] for r, y in zip(A.data, b.data)]
+        for c in range(n):
+            piv = next((r for r in range(c, n) if M[r][c] != 0), None)
+            if piv is None:
+                raise Raised('LinAlgError', ln, 'Singular matrix', implicit=True)
+            M[c], M[piv] = M[piv], M[c]
+            for r in range(n):
+                if r != c and M[r][c] != 0:
+                    f = M[r][c] / M[c][c]
+                    M[r] = [a - f * b_ for a, b_ in zip(M[r], M[c])]
+        return NpArr([M[i][n] / M[i][i] for i in range(n)])
     d = det([[real(x) for x in r] for r in A.data])
     d = z3.simplify(d)
     if not interp.decide(d != 0, f"det != 0 @{ln}"):
@@ -329,6 +343,8 @@ class GridArr:
 
     @property
     def shape_c(self):
+        if isinstance(self.R, int) and isinstance(self.C, int) and not self.cells:
+            return (self.R, self.C)       # an empty selection keeps the length of its other axis (numpy)
         return (len(self.cells), len(self.cells[0]) if self.cells else 0)
 
     def sym_getattr(self, interp, attr, node=None):
